@@ -180,6 +180,17 @@ def gen_case(rng, i):
         sl = gen_slits(rng, mode, n)
         k = 360.0 if aunit == 'deg' else 2 * math.pi
         begin, end = [b * k for b, _ in sl], [e * k for _, e in sl]
+        if mode == 'touching':
+            # Two slits that share an edge EXACTLY: the implementation decides by comparing (begin % turn) + (end - begin)
+            # of one slit with begin % turn of the next, which is exact only when that arithmetic is; with arbitrary
+            # floats the decision at exact contact is a matter of rounding (measure-zero input, not demanded).  Put the
+            # edges on a dyadic grid inside the first turn so that every step is exact and contact stays contact.
+            m = min(b for b, _ in sl)
+            g = 64.0 if aunit == 'deg' else 1024.0
+            snap = lambda t: math.floor((t - m) * k * g + 0.5) / g      # noqa: E731
+            begin, end = [snap(b) for b, _ in sl], [snap(e) for _, e in sl]
+            # keep begin < end after snapping (slits are at least 1e-3 turns wide, gaps likewise or exactly zero)
+            end = [e if e > b else b + 1.0 / g for b, e in zip(begin, end)]
     fpunit = rng.choice(['Hz'] * 6 + ['kHz', '1/min'])
     fp_hz = rng.choice([14.0, 14.0, 10.0, 60.0, 25.0, 50.0 / 3])
     funit = rng.choice(['Hz'] * 4 + ['kHz', '1/min'])
